@@ -204,14 +204,16 @@ class ValGen:
 
     def field_py_map(self, t):
         """{GraphQL field: Python field} of an input type as the generator assigns them: process_name, then "_"
-        appended while the name is already taken by an earlier field (/repo bec4417)."""
+        appended while the name is already taken by an earlier field (/repo bec4417) or - for an aliased field - is the
+        GraphQL name of a field of the type (/repo a4347c6)."""
         from ariadne_codegen.utils import process_name
 
         used, out = set(), {}
         for name in t.fields:
             p = process_name(name, convert_to_snake_case=self.snake, trim_leading_underscore=True,
                              handle_pydantic_resrved_field_names=True)
-            while p in used:
+            # (/repo a4347c6) an aliased field also steps aside for the GraphQL name of another field of the type
+            while p in used or (p != name and p in t.fields):
                 p += "_"
             used.add(p)
             out[name] = p
